@@ -17,7 +17,7 @@
    4. hence [hitzer_le4_any_basis], [inv_le4_sound_any_basis], [zde_only_singular_le4_any_basis],
       [inv_le4_complete_any_basis]: the statements of Theory/Hitzer.v section 8 without [ascending_ok];
    5. the instance 3DPGA (e31, e021, e032: non-ascending spellings, permuted generators). *)
-From Coq Require Import List ZArith Bool Ring Lia Permutation RelationClasses.
+From Coq Require Import List ZArith Bool Ring Lia Permutation RelationClasses QArith Qcanon.
 From KV Require Import Model.All Model.Inverse Theory.WF Theory.Words Theory.Sign Theory.Bits Theory.Sparse
   Theory.Product Theory.Ops Theory.SignBits Theory.WFDefault Theory.OpsWF Theory.Relabel Theory.Algebra
   Theory.Inverse Theory.Hitzer.
@@ -534,7 +534,7 @@ Section AnyBasis.
     assert (Wd : wf (scal den one)) by (apply wfmv_scal, wfmv_one).
     assert (Ed : rl (scal den one) == scal den one).
     { transitivity (scal den (rl one)); [apply (T relabel_scal)|].
-      apply (T scal_congr). apply (I4 (T relabel_one)). }
+      apply (T scal_congr). apply (T relabel_one A D HA). }
     split; [|split].
     - apply (I4 (T relabel_inj)); [apply (N wfmv_gp A SA) | exact Wd|].
       transitivity (gp O D (rl x) (rl n)); [apply (I4 (T rl_gp)); assumption|].
@@ -609,3 +609,80 @@ Section AnyBasis.
       + intros _. exact Hs.
   Qed.
 End AnyBasis.
+
+(* ====================================================================================== *)
+(** * 5. Instances: the hypotheses are satisfiable on bases that are NOT ascending *)
+
+(* 3DPGA with kingdon's customary basis  e, e1, e2, e3, e0, e01, e02, e03, e12, e31, e23, e032, e013, e021,
+   e123, e0123  (SignBits.ex_pga3d): signature [0; 1; 1; 1], start index 0, generator order e1 e2 e3 e0
+   (bits permuted), spellings e31, e032, e021 descending.  Its sign table is not the ascending one ... *)
+Example ex_pga3d_not_ascending : ascending_ok ex_pga3d = false.
+Proof. vm_compute. reflexivity. Qed.
+(* ... but the hypotheses of this file hold *)
+Example ex_pga3d_hyps : wf_alg ex_pga3d = true /\ (a_d ex_pga3d <= 4)%nat /\ 0 <= a_start ex_pga3d.
+Proof. vm_compute. split; [reflexivity|]. split; [lia | discriminate]. Qed.
+
+Example ex_pga3d_default : default_of ex_pga3d = mk_default [0; 1; 1; 1] 0 false.
+Proof. vm_compute. reflexivity. Qed.
+
+(* the closed form over the integers, all operands of 3DPGA *)
+Example hitzer_pga3d_Z : forall x : mv Z, wfmv ex_pga3d x ->
+  exists num, hitzer_num Zops idF ex_pga3d x = Ok num /\ wfmv ex_pga3d num /\
+    let den := hitzer_den Zops idF ex_pga3d x num in
+    Sparse.equiv 0 1 Z.add Z.mul Z.sub Z.opp (gp Zops ex_pga3d x num) (Algebra.scal Z.mul den (Algebra.one 1)) /\
+    Sparse.equiv 0 1 Z.add Z.mul Z.sub Z.opp (gp Zops ex_pga3d num x) (Algebra.scal Z.mul den (Algebra.one 1)).
+Proof.
+  intros x Hx. destruct ex_pga3d_hyps as (HA & Hd & Hst).
+  destruct (hitzer_le4_any_basis Z 0 1 Z.add Z.mul Z.sub Z.opp Zth ex_pga3d HA Hd Hst idF
+              (filter_ok_id Z 0 1 Z.add Z.mul Z.sub Z.opp ex_pga3d) x Hx) as (num & En & Wn & H1 & H2 & _).
+  exists num. split; [exact En|]. split; [exact Wn|]. split; [exact H1 | exact H2].
+Qed.
+
+(* and the model computes: the motor-like operand 2 + e1 - e0 + 3 e12 + e31 - 2 e01 + e021 + 4 e0123 (keys
+   0, 1, 8, 3, 5, 9, 11, 15 of ex_pga3d, stored in this order): denominator 169, x * num = num * x = den *)
+Example hitzer_pga3d_computed :
+  let x := [(0, 2); (1, 1); (8, -1); (3, 3); (5, 1); (9, -2); (11, 1); (15, 4)] in
+  match hitzer Zops idF ex_pga3d x with
+  | Ok (num, den) => mv_equiv ex_pga3d (gp Zops ex_pga3d x num) [(0, den)] = true
+                     /\ mv_equiv ex_pga3d (gp Zops ex_pga3d num x) [(0, den)] = true /\ den <> 0
+  | Err _ => False
+  end.
+Proof. vm_compute. repeat split; discriminate. Qed.
+
+(* relabelling commutes with the numerator on this operand (both sides computed) *)
+Example hitzer_num_relabel_pga3d_computed :
+  let x := [(0, 2); (1, 1); (8, -1); (3, 3); (5, 1); (9, -2); (11, 1); (15, 4)] in
+  let D := default_of ex_pga3d in
+  let rl := Relabel.relabel Z 0 1 Z.mul Z.opp ex_pga3d D in
+  match hitzer_num Zops idF ex_pga3d x, hitzer_num Zops idF D (rl x) with
+  | Ok n, Ok n' => mv_equiv D (rl n) n' = true
+                   /\ hitzer_den Zops idF ex_pga3d x n = hitzer_den Zops idF D (rl x) n'
+  | _, _ => False
+  end.
+Proof. vm_compute. split; reflexivity. Qed.
+
+(* exact fractions on 3DPGA: whatever alg.inv returns is a two-sided inverse, and ZeroDivisionError is raised
+   exactly for the operands without inverse — no hypothesis left *)
+Theorem inv_pga3d_fractions : forall x : mv Qc, wfmv ex_pga3d x ->
+  let eqv := Sparse.equiv (Q2Qc 0) (Q2Qc 1) Qcplus Qcmult Qcminus Qcopp in
+  let has_inverse := exists y, wfmv ex_pga3d y /\ eqv (gp Qcops ex_pga3d x y) (Algebra.one (Q2Qc 1))
+                               /\ eqv (gp Qcops ex_pga3d y x) (Algebra.one (Q2Qc 1)) in
+  (forall r, inv_model Qcops Qcdiv Qcisz (fun z => z) ex_pga3d x = Ok r ->
+     eqv (gp Qcops ex_pga3d x r) (Algebra.one (Q2Qc 1)) /\ eqv (gp Qcops ex_pga3d r x) (Algebra.one (Q2Qc 1)))
+  /\ (has_inverse <-> exists r, inv_model Qcops Qcdiv Qcisz (fun z => z) ex_pga3d x = Ok r)
+  /\ (~ has_inverse <-> inv_model Qcops Qcdiv Qcisz (fun z => z) ex_pga3d x = Err EZeroDiv).
+Proof.
+  intros x Hx eqv has_inverse. destruct ex_pga3d_hyps as (HA & Hd & Hst).
+  pose proof (filter_ok_id Qc (Q2Qc 0) (Q2Qc 1) Qcplus Qcmult Qcminus Qcopp ex_pga3d) as HF.
+  split.
+  - intros r Hr.
+    exact (inv_le4_sound_any_basis Qc (Q2Qc 0) (Q2Qc 1) Qcplus Qcmult Qcminus Qcopp Qcrt ex_pga3d HA Hd Hst
+             Qcdiv Qcisz (fun z => z) HF x r Hx Qc_div_inverts Hr).
+  - exact (inv_le4_complete_any_basis Qc (Q2Qc 0) (Q2Qc 1) Qcplus Qcmult Qcminus Qcopp Qcrt ex_pga3d HA Hd Hst
+             Qcdiv Qcisz (fun z => z) HF x Hx Qc_one_neq_zero Qc_isz_exact Qc_div_inverts).
+Qed.
+
+(* a plane with the descending spelling e21 and start index 1 (Relabel.ex_A2): the orientation of the
+   pseudoscalar is reversed (phi_sign = -1), the theorems apply all the same *)
+Example ex_A2_hyps : wf_alg ex_A2 = true /\ (a_d ex_A2 <= 4)%nat /\ 0 <= a_start ex_A2 /\ ascending_ok ex_A2 = false.
+Proof. vm_compute. split; [reflexivity|]. split; [lia|]. split; [discriminate | reflexivity]. Qed.
